@@ -13,3 +13,12 @@ package legacy
 // not built by NewRouter, whose nil document makes FindRoute fail earlier - see C09 contracts.)
 //@   preserves @C15 all(openapi3), all(routers), Router.doc, all(pathpattern)
 //@   preserves @C15 globals(openapi3), globals(routers), globals(legacy), globals(pathpattern)
+
+// C09: an error never comes with a route. (That success comes with a route, and which one, depends
+// on the pattern tree of package pathpattern, which is not under contract: Match is abstract here.)
+//@ trusted func (*github.com/getkin/kin-openapi/routers/legacy/pathpattern.Node).Match (currentNode, path)
+//@   modifies nothing
+//@ extend func (*Router).FindRoute
+//@   ensures @C09 [error-means-no-route] result.2 != nil ==> result.0 == nil && result.1 == nil
+//@   option safety-tags C10
+//@   tag C09
